@@ -160,7 +160,7 @@ def _savorize_src(cname, ops):
                   '            node.set_attribute(%r, node.get_attribute(%r).get_value() + %d)' % (op[1], op[1], op[2])]
         elif k == 'raise_if_has':
             L += ['        if node.is_mapping() and node.has_attribute(%r):' % op[1],
-                  '            raise yatiml.SeasoningError("attribute %s is not allowed")' % op[1]]
+                  '            raise yatiml.SeasoningError("attribute {%s} is not allowed in {0} or {this} context, 100%%")' % op[1]]
         elif k == 'get_missing':
             # documented way to fail: get_attribute on a missing key
             L += ['        if node.is_mapping():',
